@@ -362,6 +362,7 @@ class AsyncRunner(bc.Runner):
         if e is None:
             self.trap("task-return-outside-export"); return
         e["tokens"].append("ret")
+        e["drops_at_return"] = [h for _, h in out.get("handle_drops", [])]
         m = e["m"]
         e["task_return_bits"] = bits
         if m["result"] is not None:
@@ -437,6 +438,7 @@ class AsyncRunner(bc.Runner):
         out["lifted"] = e.get("lifted")
         out["result_blocks"] = e.get("result_blocks", [])
         out["result_live"] = e.get("result_live", {})
+        out["drops_at_return"] = e.get("drops_at_return")
         out["task_returns"] = e["tokens"].count("ret")
         out["task_cancels"] = e["tokens"].count("cancel")
         out["host_traps"] = list(self.traps)
